@@ -142,7 +142,10 @@ func schedName(k int64) string {
 	}
 	return "s" + strconv.FormatInt(k, 10)
 }
-func nodeName(k int64) string { return "n" + strconv.FormatInt(k, 10) }
+
+// zero-padded, so that Go's byte-wise string order (the order listNodesFromCache
+// sorts by) is the numeric order of the model's positive names
+func nodeName(k int64) string { return fmt.Sprintf("n%07d", k) }
 
 func policyName(k int64) string {
 	switch k {
@@ -365,16 +368,20 @@ func key(in []int64) string {
 type outcome struct {
 	got   []int64 // run with map insertion order 0 on the node slice as given
 	got2  []int64 // result of a fresh manager with map insertion order 1
-	listA []int64 // shard membership for two listings of the same nodes by a real node lister
-	listB []int64 // (nil when node names repeat or fewer than 2 nodes)
+	listA []int64 // assignments for the nodes as listNodesFromCache lists them, lister filled front to back
+	listB []int64 // ... and back to front (both nil when node names repeat: not a lister state)
 	panic string
 }
 
-// the node list as the controller gets it: listNodesFromCache on a client-go
-// lister over an indexer holding exactly these nodes
-func listerNodes(nodes []*corev1.Node) []*corev1.Node {
+// the node list as syncShards gets it: listNodesFromCache on a client-go
+// lister over an indexer filled with exactly these nodes, front to back or back to front
+func listerNodes(nodes []*corev1.Node, reverse bool) []*corev1.Node {
 	idx := cache.NewIndexer(cache.MetaNamespaceKeyFunc, cache.Indexers{})
-	for _, n := range nodes {
+	for i := range nodes {
+		n := nodes[i]
+		if reverse {
+			n = nodes[len(nodes)-1-i]
+		}
 		if err := idx.Add(n); err != nil {
 			panic("harness: indexer.Add: " + err.Error())
 		}
@@ -384,26 +391,6 @@ func listerNodes(nodes []*corev1.Node) []*corev1.Node {
 		panic("harness: listNodesFromCache lost nodes")
 	}
 	return out
-}
-
-func sameOrder(a, b []*corev1.Node) bool {
-	for i := range a {
-		if a[i] != b[i] {
-			return false
-		}
-	}
-	return true
-}
-
-// membership only: every shard sorted by node name
-func encMembers(res map[string][]string) []int64 {
-	cp := map[string][]string{}
-	for k, l := range res {
-		c := append([]string{}, l...)
-		sort.Slice(c, func(i, j int) bool { return num(c[i], "n") < num(c[j], "n") })
-		cp[k] = c
-	}
-	return encResult(cp)
 }
 
 func compute(in []int64) (o outcome) {
@@ -430,18 +417,10 @@ func compute(in []int64) (o outcome) {
 		}
 		seen[n.name] = true
 	}
-	if len(inp.nodes) < 2 {
-		return o
-	}
 	nodes := buildNodes(inp)
-	a := listerNodes(nodes)
-	b := listerNodes(nodes)
-	for try := 0; try < 4 && sameOrder(a, b); try++ {
-		b = listerNodes(nodes)
-	}
-	ra, _ := realRun(inp, 0, a)
-	rb, _ := realRun(inp, 1, b)
-	o.listA, o.listB = encMembers(ra), encMembers(rb)
+	ra, _ := realRun(inp, 0, listerNodes(nodes, false))
+	rb, _ := realRun(inp, 1, listerNodes(nodes, true))
+	o.listA, o.listB = encResult(ra), encResult(rb)
 	return o
 }
 
@@ -455,12 +434,21 @@ func outcomeOf(in []int64) outcome {
 }
 
 func run(sel int, in []int64) []int64 {
-	if sel < 1 || sel > 3 {
+	if sel < 1 || sel > 4 {
 		panic(fmt.Sprintf("harness: unknown selector %d", sel))
 	}
 	o := outcomeOf(in)
 	if o.panic != "" {
 		panic(o.panic)
+	}
+	if sel == 4 { // syncShards' view: real lister -> listNodesFromCache -> CalculateShardAssignments
+		if len(o.got) < 3 || o.got[1] != 1 {
+			return o.got
+		}
+		if o.listA == nil {
+			panic("harness: selector 4 needs pairwise distinct node names (a lister holds one node per name)")
+		}
+		return append(append(append(tag(1), 1), tag(2)...), o.listA...)
 	}
 	if sel == 3 {
 		return o.got[:2] // near-tie input: only accept/reject is compared with the model
@@ -479,6 +467,9 @@ const sigScoreOrder = ""
 const sigListerOrder = ""
 
 func laws(sel int, in, got []int64, law func(lsel int, lin []int64, sig string)) {
+	if sel == 4 {
+		return // the selector-1/3 case over the same tokens carries the laws
+	}
 	o := outcomeOf(in)
 	got = o.got
 	if len(got) < 3 || got[1] != 1 {
@@ -504,7 +495,7 @@ func laws(sel int, in, got []int64, law func(lsel int, lin []int64, sig string))
 	// maps (metrics provider, policy arguments) were filled in the opposite order
 	law(105, cat(res, o.got2), "")
 	law(106, cat(in, res), s1)
-	// the same cluster listed twice by the node lister: same shard membership
+	// the same cluster in two differently filled node listers: identical assignments (order included)
 	if o.listA != nil {
 		law(107, cat(o.listA, o.listB), sigListerOrder)
 	}
@@ -1016,8 +1007,12 @@ func gen(rng *vh.Rng, n int, emit func(id string, sel int, in []int64, kind stri
 			}
 			chains = append(chains, d)
 		}
-		emit(c.id, c.sel, c.toks, c.kind, assigned >= 2,
-			map[string]any{"nodes": len(c.in.nodes), "schedulers": chains, "assigned": assigned})
+		desc := map[string]any{"nodes": len(c.in.nodes), "schedulers": chains, "assigned": assigned}
+		emit(c.id, c.sel, c.toks, c.kind, assigned >= 2, desc)
+		if oc := o.(outcome); c.sel == 1 && oc.panic == "" && (oc.listA != nil || len(got) < 3 || got[1] != 1) {
+			// the same input through the real lister and listNodesFromCache, against the model's sorted listing
+			emit(c.id+"/lister", 4, c.toks, c.kind, assigned >= 2, desc)
+		}
 	}
 	fmt.Fprintf(os.Stderr, "generator: %d inputs moved to the near-tie stream by the float-order guard (kind near-tie/guard-rejected)\n", rejected)
 }
